@@ -23,16 +23,11 @@ theorem Inv.cRemoveN {s : State} (hI : Inv s) {a : Actor} {n f : Nat} (hp : s.pc
   have hng : n ∉ s.glist f := by
     intro e
     exact Chain.prev_ne_null (listOk f).1 (by simp) n e hnull
-  have hmem : ∀ g m, MemOk s g m → MemOk (({ s with lock := upd s.lock f none }).setPc a (.cResume n)) g m := by
-    intro g m hm
+  have hmem : ∀ g m, MemOk s g m → m ≠ n → MemOk (({ s with lock := upd s.lock f none }).setPc a (.cResume n)) g m := by
+    intro g m hm hmn
     unfold MemOk CancelPending at *
     inv_simp
-    by_cases hmn : m = n
-    · subst hmn
-      exfalso
-      -- a linked / pending node of the canceller would have a non-null `prev`
-      sorry
-    · grind [updA]
+    grind [updA]
   constructor
   case kindC => first | (inv_auto; done) | (trace "FAIL kindC"; sorry)
   case kindF => first | (inv_auto; done) | (trace "FAIL kindF"; sorry)
@@ -54,13 +49,23 @@ theorem Inv.cRemoveN {s : State} (hI : Inv s) {a : Actor} {n f : Nat} (hp : s.pc
   case parked => first | (inv_auto; done) | (trace "FAIL parked"; sorry)
   case listOk =>
     refine ListOk.transfer (s := s) (s' := (({ s with lock := upd s.lock f none }).setPc a (.cResume n))) rfl rfl rfl ?_ listOk
-    intro g m _ h
-    exact hmem g m h
+    intro g m hmg h
+    refine hmem g m h ?_
+    intro e; subst e
+    have : g = f := h.2.2.1.symm.trans hfut
+    subst this
+    exact hng hmg
   case scanOk =>
     refine ScanOk.transfer (s := s) (s' := (({ s with lock := upd s.lock f none }).setPc a (.cResume n))) rfl rfl ?_ ?_ scanOk
     · inv_simp; grind [updA]
-    · intro b g hd tail cur took pend skip l0 m _ _ h
-      exact hmem g m h
+    · intro b g hd tail cur took pend skip l0 m hb _ h
+      refine hmem g m h ?_
+      intro e; subst e
+      have : g = f := h.2.2.1.symm.trans hfut
+      subst this
+      have := (lockOk g b).2 (by simp [hb, Pc.locks])
+      rw [hla] at this; injection this with this; subst this
+      rw [hp] at hb; cases hb
   case prevOk =>
     refine PrevOk.transfer (s := s) (s' := (({ s with lock := upd s.lock f none }).setPc a (.cResume n))) rfl rfl ?_ ?_ ?_ prevOk
     · inv_simp; grind
